@@ -37,11 +37,12 @@ MAX_SAMPLE_CHARS = 1800
 class Violation(Exception):
     """The code under test breaks the property on this case."""
 
-    def __init__(self, key, msg, detail=None):
+    def __init__(self, key, msg, detail=None, case=None):
         super().__init__('{}: {}'.format(key, msg))
         self.key = key
         self.msg = msg
         self.detail = detail
+        self.case = case      # set by stateful machines: the history that failed
 
 
 class HarnessError(Exception):
@@ -262,6 +263,49 @@ def hyp_run(ctx, strategy, check, max_examples, salt=0, shrink=True, step_count=
             ctx.fail(v.key, v.msg + ' [hypothesis reported the failure as flaky]', last['case'], v.detail)
         else:
             raise HarnessError('flaky: {}'.format(ex))
+
+
+def stateful_run(ctx, machine_cls, max_examples, step_count, salt=0):
+    """
+    Run a Hypothesis RuleBasedStateMachine.  The machine reports a broken
+    invariant by raising ``Violation(key, msg, case={'history': [...]})``; the
+    history Hypothesis shrinks to is what gets recorded (and what --replay
+    re-executes without Hypothesis).  The machine class gets ``ctx`` as a class
+    attribute so it can count cases and consult suppressed keys.
+    """
+    import hypothesis
+    from hypothesis import HealthCheck, Phase, settings
+    from hypothesis.stateful import run_state_machine_as_test
+    machine_cls.ctx = ctx
+    last = {}
+    machine_cls._last_violation = last
+    st = settings(max_examples=max_examples, stateful_step_count=step_count, database=None, deadline=None,
+                  report_multiple_bugs=False, derandomize=False, print_blob=False,
+                  phases=[Phase.explicit, Phase.generate, Phase.shrink],
+                  suppress_health_check=[HealthCheck.too_slow, HealthCheck.data_too_large,
+                                         HealthCheck.filter_too_much, HealthCheck.large_base_example])
+    try:
+        run_state_machine_as_test(hypothesis.seed(derived_seed(ctx, salt))(machine_cls), settings=st)
+    except Violation as v:
+        ctx.fail(v.key, v.msg, v.case, v.detail)
+    except hypothesis.errors.Flaky as ex:
+        if 'v' in last:
+            v = last['v']
+            ctx.notes['flaky'] += 1
+            ctx.fail(v.key, v.msg + ' [reported as flaky by hypothesis]', v.case, v.detail)
+        else:
+            raise HarnessError('flaky: {}'.format(ex))
+
+
+def machine_violation(machine, key, msg, case, detail=None):
+    """Raise (or, for suppressed keys, count) a violation from inside a state machine."""
+    ctx = machine.ctx
+    if ctx.is_suppressed(key):
+        ctx.suppressed_hits[key] += 1
+        return
+    v = Violation(key, msg, detail=detail, case=case)
+    machine._last_violation['v'] = v
+    raise v
 
 
 # ---------------------------------------------------------------------------
